@@ -215,6 +215,16 @@ static void engine_fault_impl(RunCtx& cx) {
         if (q != p.M.cur.qr.size() || a != p.M.cur.aec.size() || m != p.M.cur.mm.size())
             V("I16/pending-not-buffered", "after the exception ('" + first_exc_what + "') the exporter holds " + std::to_string(q) + "/" + std::to_string(a) + "/" + std::to_string(m) +
                                               " items, the model's pending block " + std::to_string(p.M.cur.qr.size()) + "/" + std::to_string(p.M.cur.aec.size()) + "/" + std::to_string(p.M.cur.mm.size()));
+        // C12 under a write fault: a failed block write must not count as a written block
+        {
+            bool export_done = p.plan.ops[first_exc_op].kind == ppl::O_ROTATE && p.plan.ops[first_exc_op].export_ && p.ex->get_block_item_count() == 0;
+            uint64_t reported = p.ex->get_blocks_written_count();
+            // after a rotation that threw, the counter may legitimately have been reset for the new output
+            bool ok_count = reported == p.M.blocks_written || (p.plan.ops[first_exc_op].kind == ppl::O_ROTATE && reported == 0);
+            if (!export_done && !ok_count)
+                cx.violation("C12", "C12/I08/blocks-written-counter-after-failed-write", "after the failed call ('" + first_exc_what + "') the exporter reports " + std::to_string(reported) +
+                                                                                            " blocks written to this output, " + std::to_string(p.M.blocks_written) + " were");
+        }
         // (V2) rotation to a healthy destination returns normally within two attempts
         bool rotated = false;
         std::string rec_name;
